@@ -324,6 +324,7 @@ func CheckEmission(sc *Scenario, o *Outcome) []Diff {
 	var ds []Diff
 	w := o.Wire
 	add := func(sig, f string, a ...any) { ds = append(ds, Diff{"C06", sig, fmt.Sprintf(f, a...)}) }
+	ds = append(ds, worldProblems(o.World, "C06")...)
 	sends := w.Sends(0)
 	var prev *Event
 	seenTTL := map[int]bool{}
@@ -430,4 +431,20 @@ func sortedKeys[V any](m map[string]V) []string {
 	}
 	sort.Strings(out)
 	return out
+}
+
+// worldProblems reports probes that did not belong to the connection they were sent on (a SACK run that
+// took its sequence numbers from somewhere else than its own handshake).
+func worldProblems(w *NetWorld, prop string) []Diff {
+	if w == nil {
+		return nil
+	}
+	var ds []Diff
+	for i, p := range w.Problems {
+		if i == 3 {
+			break
+		}
+		ds = append(ds, Diff{prop, "probe-outside-connection", p})
+	}
+	return ds
 }
